@@ -17,6 +17,7 @@ import (
 	"os"
 	"sort"
 	"strings"
+	"sync"
 	"testing"
 	"time"
 
@@ -198,6 +199,31 @@ func (s *side) advance() {
 	s.ticks = false
 }
 
+// deadlineCtx is a context whose deadline passes when the harness says so (Err = DeadlineExceeded).
+type deadlineCtx struct {
+	context.Context
+	done chan struct{}
+	mu   sync.Mutex
+	err  error
+}
+
+func (c *deadlineCtx) Done() <-chan struct{} { return c.done }
+
+func (c *deadlineCtx) Err() error {
+	c.mu.Lock()
+	defer c.mu.Unlock()
+	return c.err
+}
+
+func (c *deadlineCtx) expire() {
+	c.mu.Lock()
+	defer c.mu.Unlock()
+	if c.err == nil {
+		c.err = context.DeadlineExceeded
+		close(c.done)
+	}
+}
+
 // withCtx runs fn under the op's cancellation mode and waits until the backing is idle again.
 func (s *side) withCtx(mode string, fn func(ctx context.Context)) {
 	ctx, cancel := context.WithCancel(context.Background())
@@ -219,9 +245,21 @@ func (s *side) withCtx(mode string, fn func(ctx context.Context)) {
 		fn(ctx)
 		close(done)
 	case "deadline":
-		c2, cancel2 := context.WithTimeout(ctx, 5*time.Millisecond)
-		fn(c2)
-		cancel2()
+		// the caller's deadline passes while the backing hangs; no real timer is involved, so a
+		// call that never reaches the hanging backing completes undisturbed
+		dc := &deadlineCtx{Context: ctx, done: make(chan struct{})}
+		done := make(chan struct{})
+		ent := s.w.enteredCh()
+		go func() {
+			select {
+			case <-ent:
+				dc.expire()
+			case <-done:
+			}
+		}()
+		fn(dc)
+		close(done)
+		dc.expire()
 	default:
 		fn(ctx)
 	}
@@ -514,9 +552,12 @@ func (r *runner) doSubmit(i int, op Op) *world.Verdict {
 
 	if resD.Code != resP.Code {
 		sig := fmt.Sprintf("C16/submit-classified-%d-direct-%d-proxied", resD.Code, resP.Code)
-		if name, ok := submitIdentityCodes[resD.Code]; ok && resP.Code == coreda.StatusError {
+		if _, ok := submitIdentityCodes[resD.Code]; ok && resP.Code == coreda.StatusError {
+			// classified by errors.Is directly, unrecognisable after the wire
 			sig = "C16/submit-error-identity-lost-on-the-wire"
-			_ = name
+		} else if resD.Code == coreda.StatusError && resP.Code == coreda.StatusContextCanceled && op.Cancel == "" {
+			// nobody cancelled the caller's context: the DA itself answered "canceled"
+			sig = "C16/da-cancel-answer-is-error-directly-canceled-proxied"
 		}
 		v := world.Fail(sig, "%s: SubmitWithHelpers classifies the outcome as status %d when the DA is called directly and as status %d through the JSON-RPC proxy (direct message %q, proxied message %q)",
 			what, resD.Code, resP.Code, resD.Message, resP.Message)
@@ -910,11 +951,11 @@ func genSizes(t *rapid.T, limit int) []int {
 }
 
 func genFault(t *rapid.T, sites []string, allowHang bool) (*Fault, string) {
-	if rapid.IntRange(0, 9).Draw(t, "faulty") >= 5 {
+	if rapid.IntRange(0, 9).Draw(t, "faulty") >= 3 {
 		return nil, ""
 	}
 	f := &Fault{At: rapid.SampledFrom(sites).Draw(t, "at")}
-	if allowHang && rapid.IntRange(0, 7).Draw(t, "hang") == 0 {
+	if allowHang && rapid.IntRange(0, 7).Draw(t, "hang") == 7 {
 		f.Err = "hang"
 		return f, rapid.SampledFrom([]string{"during", "during", "deadline"}).Draw(t, "giveup")
 	}
@@ -923,7 +964,7 @@ func genFault(t *rapid.T, sites []string, allowHang bool) (*Fault, string) {
 	if f.At == "get" {
 		f.Nth = rapid.IntRange(0, 2).Draw(t, "nth")
 	}
-	f.After = rapid.IntRange(0, 5).Draw(t, "after") == 0
+	f.After = rapid.IntRange(0, 5).Draw(t, "after") == 5
 	return f, ""
 }
 
@@ -962,18 +1003,18 @@ func genOp(t *rapid.T, sc *Scenario, advanced *bool) Op {
 		if rapid.Bool().Draw(t, "hasopts") {
 			op.Options = rapid.SliceOfN(rapid.Byte(), 0, 12).Draw(t, "opts")
 		}
-		if !dummy && rapid.IntRange(0, 5).Draw(t, "partial") == 0 {
+		if !dummy && rapid.IntRange(0, 5).Draw(t, "partial") == 5 {
 			op.Accept = rapid.IntRange(1, 4).Draw(t, "accept")
 		}
 		var giveup string
 		op.Fault, giveup = genFault(t, []string{"submit"}, true)
 		if giveup != "" {
 			op.Cancel = giveup
-		} else if rapid.IntRange(0, 11).Draw(t, "precancel") == 0 {
+		} else if rapid.IntRange(0, 15).Draw(t, "precancel") == 0 {
 			op.Cancel = "pre"
 		}
 	case "retrieve":
-		op.HKind = rapid.SampledFrom([]string{"zero", "below", "populated", "populated", "head", "future", "huge"}).Draw(t, "hkind")
+		op.HKind = rapid.SampledFrom([]string{"zero", "below", "populated", "populated", "populated", "populated", "head", "future", "huge"}).Draw(t, "hkind")
 		op.HIdx = rapid.IntRange(0, 7).Draw(t, "hidx")
 		if !dummy && rapid.IntRange(0, 3).Draw(t, "scripted") == 0 {
 			op.Fetch = &world.FetchOutcome{Kind: rapid.SampledFrom([]string{"notfound", "future", "listerr", "chunkerr"}).Draw(t, "fetch"),
@@ -983,7 +1024,7 @@ func genOp(t *rapid.T, sc *Scenario, advanced *bool) Op {
 		op.Fault, giveup = genFault(t, []string{"getids", "getids", "get"}, true)
 		if giveup != "" {
 			op.Cancel = giveup
-		} else if rapid.IntRange(0, 11).Draw(t, "precancel") == 0 {
+		} else if rapid.IntRange(0, 15).Draw(t, "precancel") == 0 {
 			op.Cancel = "pre"
 		}
 	case "get":
@@ -995,7 +1036,7 @@ func genOp(t *rapid.T, sc *Scenario, advanced *bool) Op {
 		}
 		if giveup != "" {
 			op.Cancel = giveup
-		} else if rapid.IntRange(0, 11).Draw(t, "precancel") == 0 {
+		} else if rapid.IntRange(0, 15).Draw(t, "precancel") == 0 {
 			op.Cancel = "pre"
 		}
 	case "aux":
@@ -1027,9 +1068,25 @@ func genScenario(t *rapid.T) Scenario {
 	sc.Backing = rapid.SampledFrom([]string{"dadbl", "dadbl", "dadbl", "dummy"}).Draw(t, "backing")
 	sc.Limit = uint64(rapid.SampledFrom([]int{16, 64, 100, 257, 1000, 4096}).Draw(t, "limit"))
 	sc.BackMode = rapid.SampledFrom([]string{"equal", "equal", "equal", "equal", "unlimited", "unlimited", "larger", "smaller"}).Draw(t, "backmode")
-	sc.NilOnEmpty = rapid.IntRange(0, 3).Draw(t, "nilonempty") == 0
-	n := rapid.IntRange(1, world.Scale(10, 24)).Draw(t, "nops")
+	sc.NilOnEmpty = rapid.IntRange(0, 3).Draw(t, "nilonempty") == 3
+	n := rapid.IntRange(1, world.Scale(10, 30)).Draw(t, "nops")
 	advanced := false
+	// usually start from a DA that already holds something
+	if rapid.IntRange(0, 2).Draw(t, "seeded") > 0 {
+		if sc.Backing == "dummy" {
+			sc.Ops = append(sc.Ops, Op{Kind: "submit", Sizes: []int{rapid.IntRange(0, 8).Draw(t, "seed0"), rapid.IntRange(0, 8).Draw(t, "seed1")}})
+			if rapid.Bool().Draw(t, "ticked") {
+				sc.Ops = append(sc.Ops, Op{Kind: "advance"})
+				advanced = true
+			}
+		} else {
+			np := rapid.IntRange(1, 6).Draw(t, "seedn")
+			if rapid.IntRange(0, 4).Draw(t, "seedmany") == 0 {
+				np = rapid.IntRange(99, 260).Draw(t, "seednmany")
+			}
+			sc.Ops = append(sc.Ops, Op{Kind: "place", N: np, Sizes: []int{rapid.IntRange(0, 24).Draw(t, "seedsize")}})
+		}
+	}
 	for i := 0; i < n; i++ {
 		sc.Ops = append(sc.Ops, genOp(t, &sc, &advanced))
 	}
@@ -1121,5 +1178,5 @@ func TestC16Matrix(t *testing.T) {
 
 // TestC16Sequences draws whole call sequences.
 func TestC16Sequences(t *testing.T) {
-	world.Run(t, "C16", "call-sequences", world.Scale(300, 2000), genScenario, run)
+	world.Run(t, "C16", "call-sequences", world.Scale(300, 10000), genScenario, run)
 }
